@@ -81,6 +81,8 @@ class Ctx:
     def count_case(self, key, nontrivial=True):
         """one evaluation against the real code; distinct non-trivial ones are counted by hash."""
         self.cov["evaluations"] += 1
+        if not hasattr(self, "_first_case"):
+            self._first_case = key
         if nontrivial:
             h = hashlib.sha1(json.dumps(key, sort_keys=True, default=str).encode()).hexdigest()
             if h not in self._distinct:
@@ -118,6 +120,8 @@ class Ctx:
         self.cov["checker_cmd"] = "tlc2.TLC (tla2tools 1.8.0) + /verif/harness (go, -tags verif) via ./verif check %s --tier %s" % (self.prop, self.tier)
         if not self.cov["rule"]:
             self.cov["rule"] = "see stages"
+        if not self.cov["samples"] and hasattr(self, "_first_case"):
+            self.cov["samples"].append({"first_case_of_run": self._first_case})
         ev = {
             "property_id": self.prop, "tier": self.tier, "seed": self.seed, "level": self.level,
             "coverage": self.cov, "assumptions": self.assumptions,
